@@ -104,7 +104,7 @@ def make_data(rng, method, grouping=None, nan=False):
         v = v + shared  # shared structure
     grouping = grouping or gen.pick(rng, ['singleton', 'pairs', 'few'])
     g = gen.group_labels(rng, n_rdm, grouping)
-    lk = gen.pick(rng, gen.LABEL_KINDS)
+    lk = gen.pick(rng, gen.LABEL_KINDS + ['floatts'])   # floatts: distinct float labels that are 'close' (time stamps)
     labs = gen.labels(rng, int(g.max()) + 1, lk)
     keep = np.ones(v.shape[1], bool)
     if nan:
